@@ -210,6 +210,24 @@ def one_case(dbx, rng, src_dec, long_lived, d, c, acc, label):
                     r_long = None
                     if not (fmt == "actisense" and codec_payload == b""):
                         acc.violation("own-packets-rejected:long-lived-decoder", f"{d.id} {fmt}: long-lived decoder raised {type(e).__name__}: {e}", w)
+                # the same field values once more from another sender with another priority, through the same long-lived
+                # decoder: the message returned first must stay what it was, the second must carry its own addressing
+                if r_long is not None and fmt != "actisense":
+                    snap = project.msg_proj(r_long)
+                    import copy as _copy
+                    m2 = _copy.deepcopy(m)
+                    m2.source, m2.priority = (src + 1) % 254, (prio + 1) % 8
+                    try:
+                        r2 = decode_packets(fmt, encode(enc, fmt, m2), long_lived[fmt])
+                    except Exception:  # noqa: BLE001
+                        r2 = None
+                    acc.count("repeated_payload_other_sender_checked")
+                    if project.msg_proj(r_long) != snap:
+                        acc.violation("returned-message-changed-by-a-later-one", f"{d.id} {fmt}: the message decoded from source {src} priority {prio} changed when the same payload "
+                                      f"arrived from source {m2.source} priority {m2.priority}", w)
+                    elif r2 is None or (r2.source, r2.priority) != (m2.source, m2.priority):
+                        acc.violation("format-roundtrip-header-differ", f"{d.id} {fmt}: the same payload from source {m2.source} priority {m2.priority} came back as "
+                                      f"{None if r2 is None else (r2.source, r2.priority)}", w)
                 if r is not None and r_long is not None and project.msg_proj(r_long) != project.msg_proj(r):
                     acc.violation("long-lived-decoder-differs-from-fresh", f"{d.id} {fmt}: a decoder that saw earlier traffic decodes the encoder's packets differently", w)
                 elif r is not None and r_long is None and not (fmt == "actisense" and codec_payload == b""):
